@@ -621,6 +621,10 @@ structure Input where
   survey : List Cells
   extHeader : List Str
   extRows : Option (List Cells)
+  /-- model variant with finding F39 repaired (the select sees the itext flag of its list even when
+      `add_choices_info_to_question` attached no `choices`); used by the check only to recognise a
+      repaired tree, never for the verdict of the oracle -/
+  f39Fixed : Bool := false
 deriving Repr, Inhabited
 
 structure Obs where
@@ -678,7 +682,7 @@ def selObs (inp : Input) (tbl : List NameInfo) (lists : List (Str × List Choice
     | some x => pure x
     | none => throw "reference outside the absolute fragment"
   let otherObs : Option (Str × Str × Str) :=
-    if other then some (otherRelevant name, c!"string", c!"Specify other.") else none
+    if other then some (otherRelevant name, c!"string", c!"yes") else none
   -- parameters (xls2json.py 1092-1131)
   if params.any (fun kv => kv.1 ≠ c!"randomize" && kv.1 ≠ c!"seed" && kv.1 ≠ c!"value" && kv.1 ≠ c!"label") then throw "parameter"
   match lookup (c!"randomize") params with
@@ -712,7 +716,7 @@ def selObs (inp : Input) (tbl : List NameInfo) (lists : List (Str × List Choice
     | none => pure []
   let prevSub ← if isPrev then (do let x ← sub ln; pure (strip x)) else pure []
   let q : SelIn := { itemset := ln, filter, params, seedSub, prevSub,
-                     choicesItext := gets && known && requiresItext cs }
+                     choicesItext := (gets || inp.f39Fixed) && known && requiresItext cs }
   return { ref, tag := tagOf sel, itemset := some (itemsetOf q), items := [], query := none, other := otherObs,
            qin := some q, listItext := known && requiresItext cs }
 
